@@ -66,4 +66,44 @@ inline void make(const LN &q, std::string &text, std::string &pat, bool ascii_on
     else if (q.kind == 1) occ[q.pos] = (char)(occ[q.pos] + 1);
     text = q.ctx == 0 ? occ : q.ctx == 1 ? "xy" + occ + pat.substr(0, q.L - 1) : occ + pat;
 }
+// long subjects with a short separator placed at every offset around the positions where a block-wise scan would change blocks
+// (256, 1024, 4096 from either end): subject = filler with one occurrence, optionally a second one near the start
+struct LB {
+    unsigned L, off, sep, early;
+};
+inline std::vector<LB> cases_long_subject(bool thorough)
+{
+    std::vector<LB> out;
+    std::vector<unsigned> Ls = {4097, 4100, 5000, 8200};
+    if (thorough) {
+        Ls.push_back(16500);
+        Ls.push_back(65600);
+    }
+    for (unsigned L : Ls) {
+        std::vector<long> centres = {0, 255, 256, 1023, 1024, 4095, 4096, (long)L - 4097, (long)L - 4096, (long)L - 4095, (long)L - 1024, (long)L - 256, (long)L - 3};
+        if (L > 16384) {
+            centres.push_back(16384);
+            centres.push_back((long)L - 16384);
+        }
+        if (L > 65536) {
+            centres.push_back(65536);
+            centres.push_back((long)L - 65536);
+        }
+        for (long ctr : centres)
+            for (long d = -4; d <= 4; ++d) {
+                long off = ctr + d;
+                if (off < 0 || off + 3 > (long)L) continue;
+                for (unsigned sep = 0; sep < 2; ++sep)
+                    for (unsigned early = 0; early < 2; ++early) out.push_back(LB{L, (unsigned)off, sep, early});
+            }
+    }
+    return out;
+}
+inline void make(const LB &q, std::string &text, std::string &sep)
+{
+    sep = q.sep ? ":a:" : "::";
+    text.assign(q.L, 'b');
+    text.replace(q.off, sep.size(), sep);
+    if (q.early && q.off > 20) text.replace(10, sep.size(), sep);
+}
 }  // namespace lp
